@@ -879,6 +879,65 @@ func ruleC12Publish(c *Ctx) {
 			}
 			return false
 		}
+		// r.diskData[k] = v with v the very value looked up under k is not a modification
+		identity := func(in ssa.Instruction) bool {
+			mu, ok := in.(*ssa.MapUpdate)
+			if !ok {
+				return false
+			}
+			v := strip(mu.Value)
+			if ex, ok := v.(*ssa.Extract); ok {
+				v = ex.Tuple
+			}
+			lk, ok := v.(*ssa.Lookup)
+			return ok && R.V(lk.X) == R.V(mu.Map) && R.V(lk.Index) == R.V(mu.Key)
+		}
+		rawMut := isMut
+		isMut = func(in ssa.Instruction) bool { return rawMut(in) && !identity(in) }
+		// roll-back: when everything the function modifies is one cell, storing back the value that
+		// was loaded from that cell before the first modification restores the state
+		cells := map[string]bool{}
+		var muts []ssa.Instruction
+		eachInstr(fn, func(in ssa.Instruction) {
+			if isMut(in) {
+				muts = append(muts, in)
+				if s, ok := in.(*ssa.Store); ok {
+					cells[R.V(s.Addr)] = true
+				} else {
+					cells["?"+in.String()] = true
+				}
+			}
+		})
+		before := func(a, b ssa.Instruction) bool { // a executes before b on every path to b
+			if a.Block() == b.Block() {
+				for _, x := range a.Block().Instrs {
+					if x == a {
+						return true
+					}
+					if x == b {
+						return false
+					}
+				}
+			}
+			return a.Block().Dominates(b.Block())
+		}
+		isRollback := func(in ssa.Instruction) bool {
+			s, ok := in.(*ssa.Store)
+			if !ok || len(cells) != 1 || !cells[R.V(s.Addr)] {
+				return false
+			}
+			ld, ok := strip(s.Val).(*ssa.UnOp)
+			if !ok || ld.Op != token.MUL || R.V(ld.X) != R.V(s.Addr) {
+				return false
+			}
+			for _, m := range muts {
+				if m != in && !isRollbackCandidate(m, ld) && !before(ld, m) {
+					return false
+				}
+			}
+			return true
+		}
+		kill := func(in ssa.Instruction) bool { return isMut(in) && !isRollback(in) }
 		// error returns reachable with a mutation behind them
 		seen := map[string]bool{}
 		for _, r := range Returns(fn) {
@@ -886,7 +945,7 @@ func ruleC12Publish(c *Ctx) {
 			if ei < 0 || isNilConst(strip(r.Results[ei])) {
 				continue
 			}
-			ws := Query{Fn: fn, StartHeld: true, Kill: isMut, IsSite: func(in ssa.Instruction) bool { return in == ssa.Instruction(r) }}.Run()
+			ws := Query{Fn: fn, StartHeld: true, Kill: kill, Gen: isRollback, IsSite: func(in ssa.Instruction) bool { return in == ssa.Instruction(r) }}.Run()
 			// name the failing step by its callee and constant string arguments (stable under renames)
 			what := "error"
 			if cl, ok := strip(r.Results[ei]).(*ssa.Call); ok {
@@ -911,6 +970,12 @@ func ruleC12Publish(c *Ctx) {
 		}
 	}
 	c.Floor(rule, 6)
+}
+
+// isRollbackCandidate: m is itself a store of the value ld loaded (another restoring store).
+func isRollbackCandidate(m ssa.Instruction, ld *ssa.UnOp) bool {
+	s, ok := m.(*ssa.Store)
+	return ok && strip(s.Val) == ssa.Value(ld)
 }
 
 func keysOf(m map[string]int64) []string {
